@@ -56,7 +56,8 @@ CHECKS = {
     "C03": dict(engine="E2 state space + reference", category="model_checking",
         technique="exhaustive enumeration of all 427 trees over <=4 data points x construction histories x alpha x outlier priors, against closed-form FS-CRP densities; all-pairs identity check",
         text="log_p, log_p_one and the fused variant of every tree (every outlier subset) built post-order, reversed, from_dict, relabelled, in EVERY compatible SMC data order and via "
-             "prune-regraft, vs the closed formulas with the literal-sum data term (1e-8 relative); ==/hash over all pairs incl. trees over different data subsets.",
+             "prune-regraft, vs the closed formulas with the literal-sum data term (1e-8 relative); large forests (8-12 clones); every tree over 3 clustered data points that the real loader produced "
+             "from input + cluster files in three layouts x 1-3 samples x outlier priors (model's outlier terms taken from the files); ==/hash over all pairs incl. trees over different data subsets.",
         note="Trusted: mc/oracle.py ref_log_joint written from the statement (root-count penalty includes its geometric normaliser).", design="4/C03"),
     "C05": dict(engine="E4 input enumerator", category="model_checking",
         technique="bounded-exhaustive enumeration of the read-count x copy-number x purity x error-rate x density x precision x grid cross-product through real input files, against scipy pmfs",
@@ -64,12 +65,13 @@ CHECKS = {
         note="Trusted: scipy.stats.binom / betabinom.", design="4/C05"),
     "C06": dict(engine="E3 edit-history BFS", category="model_checking",
         technique="explicit-state BFS over edit histories of the real Tree (canonical-state dedup, n=3 to the fixpoint) with a fresh-rebuild differential invariant in every state",
-        text="Every state reachable by the samplers' edit grammar for n=3 (closed: ~12k states, 260k transitions) and to depth 5-6 for n=4: per-clone log_p/log_r, root vector, log_p, log_p_one, fused variant equal a fresh build to 1e-9(1+depth).",
+        text="Every state reachable by the samplers' edit grammar for n=3 (closed: ~12k states, 260k transitions) and to depth 5-6 for n=4: per-clone log_p/log_r, root vector, log_p, log_p_one, fused variant equal a fresh build to 1e-9(1+depth). Isolation part: every tree over <=3 (4) data points x every subtree (extracted or rebuilt from nothing) "
+             "grafted onto two copies of the pruned tree at every pair of parents, then every in-place edit of the first copy's grafted clones: the other live trees stay unchanged and equal to their fresh builds.",
         note="Canonical form covers every slot incl. sibling order and the graph library's vacated-position list; SMC placements only on SMC-built states (as the samplers compose them).", design="4/C06"),
     "C07": dict(engine="E3 edit-history BFS + E1 explorer", category="model_checking",
         technique="structural invariant evaluated in every state of the explicit-state edit BFS and on the result of every enumerated execution of every sampler move",
         text="Well-formedness (one parent, reachable, unique names, inverse maps, payloads = data lists, each data point exactly once, data set conserved) in every BFS state and after EVERY execution of "
-             "burn-in SMC, particle Gibbs, subtree, data-point and prune-regraft moves from every start tree over <=3 data points.",
+             "burn-in SMC, particle Gibbs, subtree, data-point and prune-regraft moves from every start tree over <=3 data points; the dictionary form recorded before each move (as the run loop records it) restores unchanged after it.",
         note="Reads the Tree's __slots__ directly.", design="4/C07"),
     "C10": dict(engine="E4 input enumerator + E2 reference", category="model_checking",
         technique="bounded-exhaustive enumeration of all forests x grids x data alphabet incl. forced ties, against a brute-force maximum over all feasible index assignments",
@@ -81,7 +83,7 @@ CHECKS = {
         note="MAP tree identified by decoding table + Newick.", design="4/C11"),
     "C12": dict(engine="E4 trace enumerator", category="model_checking",
         technique="exhaustive enumeration of every tree over <=3 data points (all outlier subsets) x clustered/unclustered x samples through all summary commands, outputs decoded and compared",
-        text="Every command output (table + Newick) decoded: each mutation once per sample, clone ids are Newick nodes or -1, cluster members share a clone, ccf/prevalence per clone feasible, optimal and in [0,1] or -1; commands complete incl. all-outlier trees and empty-clone consensus trees.",
+        text="Every command output (table + Newick) decoded: each mutation once per sample, clone ids are Newick nodes or -1, cluster members share a clone, ccf/prevalence per clone feasible, optimal and in [0,1] or -1; commands complete incl. all-outlier trees and empty-clone consensus trees; one chain and 2-3 chains stored in completion orders that do not start with chain 0; 12-point trees with ids >= 10 and 3 samples.",
         note="Newick labels compared as strings.", design="4/C12"),
     "C13": dict(engine="E1 EnumRNG (recording) + E2", category="model_checking",
         technique="exhaustive enumeration of the (a,b,alpha,K,n) grid and of every auxiliary outcome with the law parameters of each draw recorded by the enumerating generator; all trees for the run-loop part",
@@ -93,7 +95,7 @@ CHECKS = {
         note="n=2 full enumeration, n=3 / length 3 deviation-bounded.", design="4/C14"),
     "C15": dict(engine="E3 edit-history BFS + E1 explorer", category="model_checking",
         technique="explicit-state BFS over edit histories with a serialisation bisimulation invariant; deviation-bounded exploration of the real chain driver under EnumRNG and a virtual clock",
-        text="In every BFS state dict / pickle / gzip-trace restore is equal on all promised attributes and every enabled edit agrees on original and restored tree; trace entries over the run-configuration grid restore, are complete, in order, and their recomputed log_p_one under the recorded alpha equals the recorded one.",
+        text="In every BFS state dict / pickle / gzip-trace restore is equal on all promised attributes and every enabled edit agrees on original and restored tree; trace entries over the run-configuration grid restore, are complete, in order, and their recomputed log_p_one under the recorded alpha equals the recorded one; the real run() (files, seeding, submission of 1-3 chains to an in-process executor in several completion orders, trace writer) over num_iters x num_particles x thin x burn-in records exactly the required schedule for every chain.",
         note="Trace part deviation-bounded (bound 0 x 4 policies, bound 1 subset).", design="4/C15"),
     "C16": dict(engine="E4 multiset enumerator + E2", category="model_checking",
         technique="exhaustive enumeration of multisets of trees x thresholds x weighting modes through the real consensus code, against support counting",
@@ -113,7 +115,7 @@ CHECKS = {
         note="Not exhaustive over random outcomes of a whole run; completed bounds and caps reported in evidence.", design="4/C19"),
     "C20": dict(engine="E5 in-memory device + fault injector", category="fault_enumeration",
         technique="crash-point enumeration: every byte prefix of the real writer's stream through the three readers; ENOSPC at every write-call boundary",
-        text="For three traces, every prefix 0..len-1 (2870 crash points x 3 readers): reader raises or output is byte-identical to the complete file's; ENOSPC at each of the writer's write calls makes the run fail and leaves a proper prefix.",
+        text="For five traces (1, 2, 6, 9 chains, clustered) every prefix 0..len-1, plus a systematic subset of the crash points of a 1101-entry chain (about 5200 crash points x 3 readers): reader raises or output is byte-identical to the complete file's; ENOSPC at each of the writer's write calls makes the run fail and leaves a proper prefix.",
         note="gzip mtime fixed to 0 for a reproducible stream.", design="4/C20"),
 }
 
